@@ -16,6 +16,7 @@
 From FR Require Import Base State Utf8 Utf8Facts Chars Ast Analyze Sem SemSound Api ApiProofs
                        Vm Compile Machine Atomize CompileCorrect RunCorrect EndToEnd.
 From FR Require Import Param ArrowA KeepOut ApiVm Scope.
+From FR Require Import ApiTotal.
 
 From Coq Require Import NArith Lia.
 
@@ -204,3 +205,23 @@ Print Assumptions C05_vm_search_ok.
 Print Assumptions C05_vm_iter_spans_valid.
 Print Assumptions C05_vm_split_never_panics.
 Print Assumptions C05_vm_replace_never_panics.
+
+(* every iterator entry point over a VM-compiled regex, with no assumption on the model's step
+   budget: from some budget on, find_iter yields valid in-range boundary spans in order, and
+   neither split nor try_replacen reaches a panicking slice *)
+Theorem C05_vm_api_never_panics_total : forall cs bs e p, VmScope cs bs e p ->
+  forall ng max_st limit, exists n0, forall fuelv, n0 <= fuelv ->
+  (forall n, chain (concat cs) 0 (collect (concat cs) (vsearch cs p ng max_st limit fuelv) n m_init)) /\
+  (forall n, Forall (fun pc => pc <> PcPanic) (split_collect (concat cs) (vsearch cs p ng max_st limit fuelv) n sp_init)) /\
+  (forall rep lim, try_replacen (concat cs) rep (mnext (concat cs) (vsearch cs p ng max_st limit fuelv)) lim <> RPanicR).
+Proof.
+  intros cs bs e p HS ng max_st limit. destruct (vm_api_total cs bs e p HS ng max_st limit) as [n0 H].
+  exists n0. intros fuelv Hf. destruct (H fuelv Hf) as (Hfi & Hsp & Hr).
+  split; [intros n; exact (proj1 (Hfi n))|]. split; [intros n; exact (proj2 (Hsp n))|intros rep lim; exact (proj2 (Hr rep lim))].
+Qed.
+Check C05_vm_api_never_panics_total : forall cs bs e p, VmScope cs bs e p ->
+  forall ng max_st limit, exists n0, forall fuelv, n0 <= fuelv ->
+  (forall n, chain (concat cs) 0 (collect (concat cs) (vsearch cs p ng max_st limit fuelv) n m_init)) /\
+  (forall n, Forall (fun pc => pc <> PcPanic) (split_collect (concat cs) (vsearch cs p ng max_st limit fuelv) n sp_init)) /\
+  (forall rep lim, try_replacen (concat cs) rep (mnext (concat cs) (vsearch cs p ng max_st limit fuelv)) lim <> RPanicR).
+Print Assumptions C05_vm_api_never_panics_total.
